@@ -430,7 +430,7 @@ func main() {
 				}
 			case c < 60:
 				do(fmt.Sprintf("admin id=%d", 1000+R.Intn(6)))
-			case c < 88: // a block: what the pool offers (a prefix per account, sometimes not everything)
+			case c < 88: // a block: a subset of what the pool offers (mostly a prefix per account, sometimes with holes: any proposer)
 				res := do("reap")
 				if !strings.HasPrefix(res, "reap") {
 					dead = true
@@ -466,7 +466,7 @@ func main() {
 							fail("offered-nonces-not-consecutive", fmt.Sprintf("account %d: the pool offers nonce %d where %d is next (application nonce %d)", a, n, want, nonce[a]), e, fmt.Sprint(want))
 						}
 						perAcct[a]++
-						if perAcct[a] <= 3 || R.Chance(60) { // a proposer may take only a prefix
+						if perAcct[a] <= 1 || R.Chance(70) { // a proposer may take any subset
 							ids = append(ids, fmt.Sprint(id))
 						}
 					}
